@@ -138,10 +138,21 @@ func streamObjHist(c *ctx) {
 		steps := 3 + c.r.intn(9)
 		var own []sent
 		var last *sent // the key and external data under which the object's wire struct was made, when known
+		var pending []string
 		for s := 0; s < steps; s++ {
 			var opq, out, line string
 			forceAdd := multi && (s == 0 && c.r.intn(4) > 0 || c.r.intn(10) == 0)
-			switch r := c.r.intn(20); {
+			r0 := c.r.intn(20)
+			if len(pending) > 0 { // a scheduled continuation: encode, add a recipient, encode again
+				switch pending[0] {
+				case "add":
+					forceAdd = true
+				case "marshal":
+					forceAdd, r0 = false, 12
+				}
+				pending = pending[1:]
+			}
+			switch r := r0; {
 			case forceAdd: // COSE_Mac / COSE_Encrypt: a recipient, mostly before anything else
 				rc, rq := genRecip(c)
 				var err error
@@ -212,6 +223,12 @@ func streamObjHist(c *ctx) {
 				opq, line = "OMarshal", "marshal"
 				if !p && err == nil {
 					out = "RBytes " + qHex(b)
+					if multi && len(pending) == 0 && c.r.bool() {
+						pending = []string{"add", "marshal"}
+						if steps < s+3 {
+							steps = s + 3
+						}
+					}
 					if last != nil {
 						e := sent{b, last.f, last.ext, last.extq, kind}
 						own = append(own, e)
